@@ -384,6 +384,31 @@ def run(ck, prog, tier, load):
     from .c17 import stream_flag_has_payload
     stream_flag_has_payload(ck, prog, "C19-d")
 
+    # a q-value (a float parsed from the header) is accepted only across a comparison that is TRUE for it: every comparison
+    # is false for NaN, so a test of the form `!(v < lo) && !(v > hi)` lets NaN through to Quality::from_f32's assertion
+    for qb in prog.find(r"Quality as core::convert::TryFrom<f32>>::try_from$"):
+        for bb, t in qb.calls(r"Quality::from_f32$"):
+            def positive(c, lab):
+                bt = bool_test(c, lab)
+                if not bt or bt[1] is not True:
+                    return False
+                e = bt[0]
+                return (e[0] == "call" and rx(r"RangeInclusive.*::contains$|Range.*::contains$|is_finite$").search(e[1] or "") is not None) or (e[0] == "bin" and e[1] in ("Le", "Lt", "Ge", "Gt", "Eq"))
+            ok, wit = guarded_by(qb, bb, positive, prune_dead=False)
+            ck.ob("C19-e.float-accepted-across-true-comparison", "Quality::try_from<f32>", ok, qb, bb, "from_f32(value) is reached only across a comparison that holds for the value (NaN fails every comparison; a pair of negated out-of-range tests does not exclude it)", witness=qb.path_lines(wit))
+    # a `str` cut at a computed byte count (min(len, k)) needs a char-boundary test: the text is peer-controlled UTF-8
+    for b in sorted(prog.bodies.values(), key=lambda x: (x.file, x.lo, x.path)):
+        if not (b.file.endswith(FILES) or b.file.endswith("actix-router/src/de.rs")) or "::tests::" in b.npath:
+            continue
+        for bb, t in b.calls(r"Index<I> for str>::index$|core::str::<impl str>::split_at$"):
+            if len(t["args"]) < 2 or is_noise(b, bb):
+                continue
+            idx = b.op_expr(t["args"][1], 6)
+            if not (e_calls(idx, r"core::cmp::min$|Ord>::min$|::min$") and e_calls(idx, r"::len$") and any(k[2] is not None for k in e_consts(idx))):
+                continue
+            okb = any(c[0] == "call" and rx(r"is_char_boundary$").search(c[1] or "") and lab is True for c, lab, a in b.guards(bb)) or bool(e_calls(idx, r"floor_char_boundary$|ceil_char_boundary$"))
+            ck.ob("C19-e.str-truncated-on-char-boundary", "::".join(b.npath.split("::")[-2:]), okb, b, bb, "a string is cut at min(len, k) bytes only after is_char_boundary / floor_char_boundary (byte k may lie inside a multi-byte character): %s" % short(idx, 4))
+
 
 def core_of(e):
     while isinstance(e, tuple):
